@@ -26,6 +26,7 @@ def main():
     ap.add_argument("--slot", default="0")
     ap.add_argument("--json")
     ap.add_argument("--skip-tests", action="store_true")
+    ap.add_argument("--collect", help="directory to copy the first replay file of each alarming check into")
     a = ap.parse_args()
     checks = ALL if a.checks == "all" else a.checks.split(",")
     wt = f"/var/tmp/pckb-mut-{a.slot}"
@@ -63,6 +64,11 @@ def main():
             t0 = time.time()
             rc, out = sh(["/verif/check", c], cwd="/verif", env={"PCKB_REPO": wt, "PCKB_TARGET_DIR": f"{tgt}/harness", "PCKB_OUT_DIR": f"{tgt}/evidence-out"})
             res["checks"][c] = rc
+            if rc == 1 and a.collect:
+                import glob
+                os.makedirs(a.collect, exist_ok=True)
+                for rp in sorted(glob.glob(f"{tgt}/evidence-out/replay/{c}-*.json"))[:1]:
+                    shutil.copy(rp, os.path.join(a.collect, f"{c}.json"))
             if rc == 1:
                 v = [l for l in out.splitlines() if l.startswith("  what:")]
                 res["first_violation"][c] = v[0][8:300] if v else ""
